@@ -1,6 +1,8 @@
 package c02
 
 import (
+	"bytes"
+	"compress/gzip"
 	"expvar"
 	"fmt"
 	"io"
@@ -47,10 +49,14 @@ type HTTPCase struct {
 	Requests [][]Line
 	RP       string // "" = the default retention policy
 	Prec     string // precision parameter ("" = n)
+	// Repeat > 1: the lines of each request are repeated that often (a long, compressible body); Gzip: the body is
+	// sent with Content-Encoding: gzip (and a Content-Length, as clients do)
+	Repeat int  `json:",omitempty"`
+	Gzip   bool `json:",omitempty"`
 }
 
 func (c HTTPCase) String() string {
-	return fmt.Sprintf("tasks %v, POST /write?db=db1&rp=%s&precision=%s with bodies %v", c.Universe, c.RP, c.Prec, c.Requests)
+	return fmt.Sprintf("tasks %v, POST /write?db=db1&rp=%s&precision=%s (gzip %v) with bodies %v each line set repeated %d times", c.Universe, c.RP, c.Prec, c.Gzip, c.Requests, c.Repeat)
 }
 
 func runHTTP(t *testing.T, c HTTPCase) (p *problem) {
@@ -78,7 +84,15 @@ func runHTTP(t *testing.T, c HTTPCase) (p *problem) {
 		seq := 0
 		for _, req := range c.Requests {
 			var body strings.Builder
-			for _, l := range req {
+			rpt := c.Repeat
+			if rpt < 1 {
+				rpt = 1
+			}
+			var lines []Line
+			for k := 0; k < rpt; k++ {
+				lines = append(lines, req...)
+			}
+			for _, l := range lines {
 				seq++
 				fmt.Fprintf(&body, "%s k=1i,seq=%di", l.M, seq)
 				if l.TS > 0 {
@@ -115,7 +129,18 @@ func runHTTP(t *testing.T, c HTTPCase) (p *problem) {
 				url += "&precision=" + c.Prec
 			}
 			rec := httptest.NewRecorder()
-			h.ServeHTTP(rec, httptest.NewRequest(http.MethodPost, url, strings.NewReader(body.String())))
+			var rq *http.Request
+			if c.Gzip {
+				var zb bytes.Buffer
+				zw := gzip.NewWriter(&zb)
+				zw.Write([]byte(body.String()))
+				zw.Close()
+				rq = httptest.NewRequest(http.MethodPost, url, bytes.NewReader(zb.Bytes()))
+				rq.Header.Set("Content-Encoding", "gzip")
+			} else {
+				rq = httptest.NewRequest(http.MethodPost, url, strings.NewReader(body.String()))
+			}
+			h.ServeHTTP(rec, rq)
 			if rec.Code != http.StatusNoContent && rec.Code != http.StatusOK {
 				p = &problem{"http-write-refused", fmt.Sprintf("%s: status %d %s", c, rec.Code, rec.Body.String())}
 				return
@@ -176,6 +201,25 @@ func httpPart(t *testing.T, r *rep.R, n *int) {
 	}
 	rec(nil)
 	u := [3]string{"m1+all", "m1", "all"}
+	// long bodies, plain and gzip-compressed (the compressed body is much shorter than the text)
+	for _, gz := range []bool{false, true} {
+		for _, rptn := range []int{1, 70, 400} {
+			for _, b := range [][]Line{{{"m1", 1}, {"m2", 2}, {"m1", 0}}, {{"m1", 3}, {"m1", 1}}} {
+				*n++
+				if !rep.Mine(*n) {
+					continue
+				}
+				c := HTTPCase{Universe: u, Requests: [][]Line{b}, RP: "rp1", Repeat: rptn, Gzip: gz}
+				rep.Current(map[string]any{"HTTP": c})
+				r.Add("evaluations", 1)
+				r.Add("http_cases", 1)
+				r.Add("transitions", int64(len(b)*rptn))
+				if p := runHTTP(t, c); p != nil {
+					r.Violation(p.kind, p.msg, map[string]any{"HTTP": c})
+				}
+			}
+		}
+	}
 	for _, rp := range []string{"rp1", ""} {
 		for _, prec := range []string{"", "s"} {
 			for bi, b := range bodies {
